@@ -34,6 +34,12 @@ func (*engine) Decode(raw json.RawMessage) (any, error) {
 	if _, ok := tgtHandles[c.T]; !ok {
 		return nil, fmt.Errorf("unknown target type %q", c.T)
 	}
+	if c.KeyT != "" {
+		if _, ok := tgtHandles[c.KeyT]; !ok || c.T != "map[string]any" {
+			return nil, fmt.Errorf("keyed successor: unknown own type %q, or T is not map[string]any", c.KeyT)
+		}
+		c.Mid, c.MidGraph = true, false
+	}
 	for i := range c.Decls {
 		if _, ok := srcHandles[c.Decls[i].S]; !ok {
 			return nil, fmt.Errorf("unknown source type %q", c.Decls[i].S)
@@ -68,6 +74,9 @@ func (e *engine) Generate(r *lib.Rng, tier string, i int) any {
 	if r.Chance(1, 4) {
 		c.Mid = true
 		c.MidGraph = r.Chance(1, 3)
+	}
+	if c.KeyT != "" {
+		c.Mid, c.MidGraph = true, false
 	}
 	for k := range c.Decls {
 		if len(c.Decls[k].Maps) > 0 && r.Chance(1, 6) {
@@ -232,6 +241,10 @@ func (e *engine) generate(r *lib.Rng, tier string, i int) any {
 			d.Val = g.value(d.S, g.depth)
 		}
 		return &Case{T: T, Decls: []Decl{d}, Short: r.Chance(1, 2), Note: "whole-input"}
+	case r.Chance(1, 12):
+		if c := g.keyedCase(); c != nil {
+			return c
+		}
 	}
 	c, tpaths := g.base(r.Range(1, maxDecls), maxMaps, false)
 	if r.Chance(1, 5) {
@@ -903,7 +916,9 @@ func (e *engine) Run(ci any) lib.Result {
 			break
 		}
 	}
-	if c.Mid && c.MidGraph {
+	if c.KeyT != "" {
+		res.Tags = append(res.Tags, "succ:keyed", "keyed:"+c.KeyT)
+	} else if c.Mid && c.MidGraph {
 		res.Tags = append(res.Tags, "succ:mid-graph")
 	} else if c.Mid {
 		res.Tags = append(res.Tags, "succ:mid")
